@@ -35,6 +35,12 @@ NATIVE_UNITS = {
     "tail_arity_witness": {"file": "src/interpreter/interpreter.rs", "source": "tail_arity.rs",
                            "modpath": "interpreter::interpreter", "test": "verif_native_tail_arity_witness",
                            "role": "witness", "for_fns": ["apply_procedure"]},
+    "import_witness": {"file": "src/interpreter/interpreter.rs", "source": "import_sets.rs",
+                       "modpath": "interpreter::interpreter", "test": "verif_native_import_witness",
+                       "role": "witness", "for_fns": ["eval_import_set"]},
+    "import_cycle_witness": {"file": "src/interpreter/interpreter.rs", "source": "import_sets.rs",
+                             "modpath": "interpreter::interpreter", "test": "verif_native_import_cycle_witness",
+                             "role": "witness", "for_fns": ["eval_import_set"]},
     "tail_arity_panic": {"file": "src/interpreter/interpreter.rs", "source": "tail_arity.rs",
                          "modpath": "interpreter::interpreter", "test": "verif_native_tail_arity_panic",
                          "role": "witness", "for_fns": ["apply_procedure"]},
@@ -59,6 +65,35 @@ _TAIL_UNVERIFIED = [
 ]
 
 PROPS = {
+    "C12": {
+        "verus": ["interp_import"], "kani": [], "native": ["import_witness"],
+        "level": "proof",
+        "explanation": "Interpreter::eval_import_set is proved, for import sets nested to any depth, against the import-set algebra as a "
+                       "recursive relation: a library contributes exactly its exports; only keeps exactly the listed names, except drops "
+                       "exactly the listed names, prefix puts the prefix in front of every name, rename replaces the listed names (the "
+                       "last pair for a name wins) and leaves the others -- every binding keeps the value it had under its original name; "
+                       "an error of the inner set is passed on unchanged.",
+        "unverified": ["eval_import (the union of several import sets of one declaration: HashMap::extend, then define into the frame) and "
+                       "eval_library_definition (export specs with rename): not under contract",
+                       "'the outcome is the same on every run': the ORDER of a library's export list comes from a HashMap",
+                       "Library::iter_definitions and the std adapters filter/map/collect, HashSet/HashMap construction: assumed contracts (wrappers)"],
+        "assumptions": ["the std iterator adapters and hash collections behave as their documentation says (wrappers listed under trusted)"],
+    },
+    "C14": {
+        "verus": ["interp_import_cycle"], "kani": [], "native": ["import_cycle_witness"],
+        "level": "proof",
+        "explanation": "The cycle detector of eval_import_set is proved as a frame condition: the set of libraries whose import is in "
+                       "progress is the same on EVERY exit as on entry (so a failed import leaves no trace and the outcome of a later "
+                       "import cannot depend on it), a library that is already in progress is the cyclic-import error located at its "
+                       "name, and otherwise the outcome is exactly that of loading the library (its error passed on unchanged).",
+        "unverified": ["termination of library loading (get_library -> file reading, parsing, evaluation of the library body): no "
+                       "decreases clause can be stated over the file system",
+                       "that a cycle is REACHED exactly when the graph has one (needs the recursion through get_library / "
+                       "eval_library_definition under contract), missing / unreadable / malformed files, the program-directory rule"],
+        "assumptions": ["get_library leaves the in-progress set as it found it -- the statement proved for eval_import_set itself, assumed "
+                        "for the nested imports it performs (induction on the nesting depth of imports)",
+                        "derive(Hash, Eq) make LibraryName a lawful HashSet key (vstd obeys_key_model)"],
+    },
     "C06": {
         "verus": ["lexer_tok"], "kani": [], "native": ["lexer_token_witness", "hash_token_known"],
         "level": "proof",
